@@ -2,15 +2,17 @@
 // PatchExpiredTreasures over the expiry index) against Swamp/Claims.v.
 //
 // Every case runs claimers and writers against a fresh swamp of the real in-process engine.
-//   witness   the witnesses of the pinned commit's defects (empty candidate list; stale candidate
-//             set and delete-during-PatchExpired forced through the hook points; cross-index
-//             double claim, a recorded open finding)
-//   seq       random sequential histories
-//   forced    schedules forced through the hook points gateway.*.predicateBuilt,
-//             swamp.*.selected, swamp.patchExpired.beforeReindex: all interleavings of the macro
-//             steps of one claimer + one writer / two claimers from a menu, random ones of
-//             <= 3 claimers + <= 2 writers on <= 5 records
-//   stress    8 free-running claimers + writers; only the property oracle applies
+//
+//	witness   the witnesses of the pinned commit's defects (empty candidate list; stale candidate
+//	          set and delete-during-PatchExpired forced through the hook points; cross-index
+//	          double claim, a recorded open finding)
+//	seq       random sequential histories
+//	forced    schedules forced through the hook points gateway.*.predicateBuilt,
+//	          swamp.*.selected, swamp.patchExpired.beforeReindex: all interleavings of the macro
+//	          steps of one claimer + one writer / two claimers from a menu, random ones of
+//	          <= 3 claimers + <= 2 writers on <= 5 records
+//	stress    8 free-running claimers + writers; only the property oracle applies
+//
 // For every case Swamp/Claims.v first evaluates the oracle on the implementation's observations
 // alone (same key to two claimers; claimed record not satisfying the criteria at claim time,
 // from the returned clones / the state read while every other thread was parked; deleted key
@@ -20,6 +22,8 @@ package main
 
 import (
 	"fmt"
+	"os"
+	"runtime/pprof"
 	"sort"
 	"sync"
 	"time"
@@ -500,12 +504,13 @@ func runStress(e *lib.Env, r *common.Rng, nrec int) obs {
 	// Two flavours, because the engine itself can deadlock when a Delete (deleteHandler: treasure
 	// guard, then index-beacon lock) runs beside a Shift (index-beacon lock, then treasure guards) -
 	// a liveness defect outside C11, reported to the coordinator:
-	//   A: 8 claimers of all three kinds + writers that create fresh expired records
-	//   B: 8 PatchExpired claimers (their selection takes no guards) + deleting and patching writers
+	//   A: 12 ShiftExpired / ShiftMatching claimers, no writers
+	//   B: 8 PatchExpired claimers (their selection takes no guards) + deleting writers
 	flavourB := r.Chance(40)
 	ps := []prog{}
 	for i := 0; i < 8; i++ {
-		c := r.Intn(4)
+		c := r.Intn(3) // flavour A: shift claimers only (a PatchExpired save re-adds the record to the
+		// index under its guard and then sorts under the beacon lock: same deadlock against a Shift)
 		if flavourB {
 			c = 3
 		}
@@ -524,14 +529,14 @@ func runStress(e *lib.Env, r *common.Rng, nrec int) obs {
 	for i := 0; i < 4; i++ {
 		switch {
 		case !flavourB:
-			// any PatchTreasures on an indexed record re-indexes it under its guard (the change flags
-			// are sticky) and can deadlock against a Shift as well: flavour A writers only create
-			// fresh expired records
-			ps = append(ps, prog{Kind: "WPut", K: nrec + 1 + i, St: r.Intn(2), Grp: r.Intn(4), E: int64(-2000 - i)})
-		case r.Bool():
-			ps = append(ps, prog{Kind: "WDel", K: 1 + r.Intn(nrec)})
+			// any save of a record with an expiry (even of a fresh one: Add, then Sort, under the
+			// creator's guard) can deadlock against a Shift: flavour A has no writers; 4 more claimers
+			ps = append(ps, prog{Kind: "SE", Hm: 1 + r.Intn(3), Od: true, P: plan{Kind: "none"}})
 		default:
-			ps = append(ps, prog{Kind: "WPatch", K: 1 + r.Intn(nrec), St: r.Intn(2)})
+			// (no body patches here either: a patch re-inserts the record into the index, which
+			// legitimately lets a second claimer take a record whose in-place claim is in flight, and
+			// a free run cannot order that re-insertion against the claims)
+			ps = append(ps, prog{Kind: "WDel", K: 1 + r.Intn(nrec)})
 		}
 	}
 	o.Progs = ps
@@ -550,6 +555,9 @@ func runStress(e *lib.Env, r *common.Rng, nrec int) obs {
 	case <-fin:
 	case <-time.After(10 * time.Second):
 		o.Notes = append(o.Notes, "hang: free-running claimers/writers did not finish within 10 s")
+		if os.Getenv("C11_DUMP") != "" {
+			pprof.Lookup("goroutine").WriteTo(os.Stderr, 1)
+		}
 		o.Res = [][]kc{}
 		return o
 	}
@@ -747,6 +755,16 @@ func main() {
 	run.Meta.Rule = "a case is non-trivial when a claimer received a record and there was a writer, a second claimer, or a record the criteria rejected"
 	rng := common.NewRng(args.Seed, "C11")
 	thorough := args.Tier == "thorough"
+	// global watchdog: an engine deadlock (possible on a defective tree) must not stall the check
+	limit := 5 * time.Minute
+	if thorough {
+		limit = 50 * time.Minute
+	}
+	time.AfterFunc(limit, func() {
+		fmt.Fprintln(os.Stderr, "C11 harness: run exceeded", limit, "- the engine hangs (deadlock); goroutine dump follows")
+		pprof.Lookup("goroutine").WriteTo(os.Stderr, 1)
+		os.Exit(3)
+	})
 	e := lib.NewEnv("c11")
 	defer e.Close()
 
@@ -889,4 +907,7 @@ func main() {
 	}
 	run.Meta.Traces = run.Meta.Evaluations
 	run.Finish("check_all")
+	// no engine shutdown: after a reported hang the stuck RPCs would block StopHydra forever
+	os.RemoveAll(e.Root)
+	os.Exit(0)
 }
